@@ -87,11 +87,13 @@ type seqSt struct {
 	opNo   int
 }
 
-func (s *seqSt) sk() *stakingkeeper.Keeper  { return s.w.tApp.GetStakingKeeper() }
-func (s *seqSt) lk() liquidkeeper.Keeper    { return s.w.tApp.GetLiquidKeeper() }
-func (s *seqSt) denom(v int) string         { return s.lk().GetLiquidStakingTokenDenom(s.vals[v]) }
-func ukava(x *big.Int) sdk.Coin             { return sdk.NewCoin("ukava", sdkmath.NewIntFromBigInt(x)) }
-func (s *seqSt) bkava(v int, x *big.Int) sdk.Coin { return sdk.NewCoin(s.denom(v), sdkmath.NewIntFromBigInt(x)) }
+func (s *seqSt) sk() *stakingkeeper.Keeper { return s.w.tApp.GetStakingKeeper() }
+func (s *seqSt) lk() liquidkeeper.Keeper   { return s.w.tApp.GetLiquidKeeper() }
+func (s *seqSt) denom(v int) string        { return s.lk().GetLiquidStakingTokenDenom(s.vals[v]) }
+func ukava(x *big.Int) sdk.Coin            { return sdk.NewCoin("ukava", sdkmath.NewIntFromBigInt(x)) }
+func (s *seqSt) bkava(v int, x *big.Int) sdk.Coin {
+	return sdk.NewCoin(s.denom(v), sdkmath.NewIntFromBigInt(x))
+}
 
 func addrFrom(r *c.Rng) sdk.AccAddress {
 	b := make([]byte, 20)
@@ -117,7 +119,9 @@ func (s *seqSt) endBlock(advance time.Duration) {
 	staking.EndBlocker(s.ctx, s.sk())
 }
 
-func (s *seqSt) validator(v int) (stakingtypes.Validator, bool) { return s.sk().GetValidator(s.ctx, s.vals[v]) }
+func (s *seqSt) validator(v int) (stakingtypes.Validator, bool) {
+	return s.sk().GetValidator(s.ctx, s.vals[v])
+}
 
 // slash burns exactly `burn` tokens of validator v through the real Slash (infraction at the current height)
 func (s *seqSt) slash(v int, burn *big.Int) bool {
@@ -516,13 +520,18 @@ func (s *seqSt) burnAmount(bal *big.Int) *big.Int {
 }
 
 func (s *seqSt) opMint(d, v int) {
-	u := s.users[d]
-	pre := s.observe(s.ctx, v, u)
+	pre := s.observe(s.ctx, v, s.users[d])
 	amt := s.mintAmount(pre)
 	if amt.Sign() < 0 {
 		amt = bi(0)
 	}
-	denomOk := !s.r.Chance(2)
+	s.mintWith(d, v, amt, !s.r.Chance(2))
+}
+
+// mintWith sends MsgMintDerivative of `amt` and prints the slice before / after
+func (s *seqSt) mintWith(d, v int, amt *big.Int, denomOk bool) {
+	u := s.users[d]
+	pre := s.observe(s.ctx, v, u)
 	coin := ukava(amt)
 	if !denomOk {
 		coin = sdk.NewCoin("usdx", coin.Amount)
@@ -540,9 +549,14 @@ func (s *seqSt) opMint(d, v int) {
 }
 
 func (s *seqSt) opBurn(d, v int) {
+	pre := s.observe(s.ctx, v, s.users[d])
+	s.burnWith(d, v, s.burnAmount(pre.balU))
+}
+
+// burnWith sends MsgBurnDerivative of `amt` units and prints the slice before / after
+func (s *seqSt) burnWith(d, v int, amt *big.Int) {
 	u := s.users[d]
 	pre := s.observe(s.ctx, v, u)
-	amt := s.burnAmount(pre.balU)
 	msg := liquidtypes.NewMsgBurnDerivative(u, s.vals[v], s.bkava(v, amt))
 	srv := liquidkeeper.NewMsgServerImpl(s.lk())
 	cls, err := kapp.Exec(s.ctx, func(cx sdk.Context) error {
@@ -836,7 +850,10 @@ func (s *seqSt) opEvent() {
 
 // ------------------------------------------------------------------ tally
 
-func (s *seqSt) opTally() {
+func (s *seqSt) opTally() { s.tallyWith(-1) }
+
+// tallyWith: mask < 0 = a random voter set, otherwise bit i = user i votes
+func (s *seqSt) tallyWith(mask int) {
 	r := s.r
 	ctx, _ := s.ctx.CacheContext() // proposal, votes and the tally's vote deletions are discarded
 	tApp := s.w.tApp
@@ -888,6 +905,9 @@ func (s *seqSt) opTally() {
 	perm := r.Intn(1 << uint(len(s.users)))
 	if r.Chance(25) {
 		perm = (1 << uint(len(s.users))) - 1 // everybody votes
+	}
+	if mask >= 0 {
+		perm = mask
 	}
 	for i, u := range s.users {
 		if perm&(1<<uint(i)) == 0 {
@@ -1102,5 +1122,9 @@ func main() {
 	for i := 0; i < workers; i++ {
 		pool <- mkWorld()
 	}
+	// the five former witness histories (findings F6, F6b, F7, F8, F6c), replayed on every run
+	w0 := <-pool
+	directed(w0, out)
+	pool <- w0
 	kapp.RunSeqs(n, workers, r, func() *world { return <-pool }, func(w *world, seq int, r *c.Rng) { w.seq(out, seq, r) })
 }
